@@ -242,6 +242,15 @@ def shard_main(argv):
                     return True
                 return False
 
+            if hasattr(mod, "reexpress"):
+                # let the check restate the failing case in a more shrinkable form (e.g. a seeded gc
+                # schedule as the explicit list of allocation ordinals at which it collected)
+                try:
+                    alt = mod.reexpress(case, o)
+                    if alt is not None and still_fails(alt):
+                        case = alt
+                except Exception:
+                    pass
             case = _shrink.shrink(case, still_fails, getattr(mod, "SHRINK_BUDGET", 1500))
             o = holder["o"]
         result["failure"] = {"sig": o.failure.sig, "detail": o.failure.detail, "info": o.failure.info,
